@@ -327,8 +327,55 @@ class Program:
         self._callers = None
 
     # ---- lookup helpers --------------------------------------------------------------
+    _ENV_TY = re.compile(r"cosmwasm_std::(\S*::)?(DepsMut|Deps|Env|MessageInfo|QuerierWrapper|Storage|Api)\b")
+
+    def bundle_layout(self, f):
+        """[(synthetic index, k, field name, field type)] — the fields of private parameter structs of a contract function
+        (`fn swap(deps, env, info, params: SwapParams)`), numbered after the real parameters.  A bundle is a struct defined in a
+        contract crate that is neither a wire / stored type (no serde impl) nor a context bundle (no deps / env / info field);
+        its fields are then addressable like parameters: param_index_of_type finds them, val_call appends what the call
+        site puts into them, Roots reads ("param", f, synthetic) as the field of the struct parameter."""
+        memo = self.__dict__.setdefault("_bundle_memo", {})
+        if f.path in memo:
+            return memo[f.path]
+        out = []
+        if f.body is not None and f.kind in ("fn", "assoc_fn") and f.crate in ("halo_pair", "halo_factory", "halo_router"):
+            nxt = f.body.arg_count
+            serde = {i_.get("self") for i_ in self.impls if str(i_.get("trait", "")).endswith(("Deserialize", "Serialize", "Deserialize<'de>"))}
+            for k in range(f.body.arg_count):
+                ty = f.body.locals[k + 1]["ty"].strip()
+                while ty.startswith("&"):
+                    ty = re.sub(r"^&\s*('\w+\s+)?(mut\s+)?", "", ty)
+                a = self.adts.get(ty) or self.adts.get(re.sub(r"<.*$", "", ty))
+                if a is None or a["kind"] != "struct" or not a["path"].startswith(("halo_pair::", "halo_factory::", "halo_router::")):
+                    continue
+                if a["path"] in serde or any(self._ENV_TY.search(x["ty"]) for x in a["variants"][0]["fields"]):
+                    continue
+                for x in a["variants"][0]["fields"]:
+                    out.append((nxt, k, x["name"], x["ty"]))
+                    nxt += 1
+        memo[f.path] = out
+        return out
+
+    def clone_fn(self, f, tag, site=None):
+        """A per-call-site copy of a thin forwarding function shared by several dispatch arms (roles.descend_intermediate):
+        same body under its own path, so that its parameters can stand for one arm's arguments.  Clones are found by
+        fn() only; scans over all functions see the original once."""
+        if not hasattr(self, "_clones"):
+            self._clones = {}
+        path = "%s@%s" % (f.path, tag)
+        c = self._clones.get(path)
+        if c is None:
+            c = Fn(f.crate, dict(f.j, path=path))
+            c.clone_of = f.path
+            c.clone_site = site
+            self._clones[path] = c
+        return c
+
     def fn(self, path):
         f = self.fns.get(path)
+        if f is None and isinstance(path, str) and "@" in path:
+            f = getattr(self, "_clones", {}).get(path)
         if f is None and isinstance(path, str) and "bignumber::" in path:
             # `bignumber` re-exports its `math` module's items at the crate root
             f = self.fns.get(re.sub(r"bignumber::(?!math::)", "bignumber::math::", path))
@@ -607,6 +654,11 @@ class Program:
             m = model_std_ctor(fnp, b, callee, args, fr)
             if m is not None:
                 return m
+            cf_ = self.fns.get(callee) or self.fns.get(generic_path(callee))
+            if cf_ is not None and cf_.body is not None and cf_.crate in ("halo_pair", "halo_factory", "halo_router"):
+                lay = self.bundle_layout(cf_)
+                if lay and len(args) == cf_.body.arg_count:
+                    args = args + tuple(proj(args[k_], ("f", nm_)) for (_i, k_, nm_, _t) in lay)      # the bundle's fields as arguments
         return ("call", fnp, b, callee, args)
 
     def _swap_partner(self, fn, body, b, i):
